@@ -137,6 +137,45 @@ fn corrupt(rng: &mut Rng, bytes: &mut Vec<u8>) -> String {
         return "fill".into();
     }
     let p = rng.below(bytes.len());
+    // structure-aware edits: what an interrupted write or a careless edit does to a definition line
+    let find_all = |hay: &[u8], needle: &[u8]| -> Vec<usize> { (0..hay.len().saturating_sub(needle.len() - 1)).filter(|&i| &hay[i..i + needle.len()] == needle).collect() };
+    let line_end = |hay: &[u8], from: usize| -> usize { hay[from..].iter().position(|&b| b == b'\n').map_or(hay.len(), |k| from + k) };
+    match rng.below(18) {
+        12 | 13 => {
+            // the rest of a line is lost right after a separator ("0x0041..", "a,1,", "DEFAULT 0 ")
+            let seps: [&[u8]; 5] = [b"..", b",", b" ", b"\t", b"/"];
+            let sep = *rng.pick(&seps);
+            let at = find_all(bytes, sep);
+            if let Some(&i) = at.get(rng.below(at.len().max(1))) {
+                let from = i + sep.len();
+                let keep = rng.below(2);                       // nothing, or one more byte
+                let to = line_end(bytes, from);
+                let from = (from + keep).min(to);
+                bytes.drain(from..to);
+                return "cut-after-separator".into();
+            }
+            bytes.truncate(p);
+            return "truncate".into();
+        }
+        14 => {
+            // a hexadecimal prefix goes missing
+            let at = find_all(bytes, b"0x");
+            if let Some(&i) = at.get(rng.below(at.len().max(1))) {
+                bytes.drain(i..i + 2);
+                return "drop-0x".into();
+            }
+            bytes.remove(p);
+            return "delete".into();
+        }
+        15 => {
+            let ins = "あ".as_bytes().to_vec();
+            let at = find_all(bytes, b"..");
+            let q = at.get(rng.below(at.len().max(1))).map_or(p, |&i| i + 2);
+            bytes.splice(q..q, ins);
+            return "multibyte".into();
+        }
+        _ => {}
+    }
     match rng.below(12) {
         0 => { bytes[p] ^= 1 << rng.below(8); "bitflip".into() }
         1 => { bytes[p] = 0; "nul".into() }
@@ -260,6 +299,13 @@ pub fn record_lex(a: &HashMap<String, String>) -> i32 {
         };
         let nrows = rng.below(maxrows + 1);
         let mut rows: Vec<(Vec<u32>, u32, u32, i32, String)> = vec![];
+        if i % 50 == 11 {
+            // one surface with 256..300 homographs (the postings of a surface are a counted list)
+            let s = vec![0x61, 0x62];
+            for k in 0..(256 + rng.below(45)) {
+                rows.push((s.clone(), rng.below(3) as u32, rng.below(3) as u32, (k % 7) as i32, format!("h{k}")));
+            }
+        }
         for _ in 0..nrows {
             let s = if !rows.is_empty() && rng.chance(1, 4) {
                 let mut b = rng.pick(&rows).0.clone();
